@@ -1587,6 +1587,19 @@ func (e *Env) call(ex *ast.CallExpr) (SymVal, error) {
 			}
 		}
 		return SymVal{}, fmt.Errorf("captured: %s is not a captured variable", id.Name)
+	case "inpkg":
+		// inpkg(name): the function under analysis belongs to the package with that (last path element) name
+		id, ok := ex.Args[0].(*ast.Ident)
+		if !ok || len(ex.Args) != 1 {
+			return SymVal{}, fmt.Errorf("inpkg(name)")
+		}
+		if c.fn.Pkg != nil && c.fn.Pkg.Pkg.Name() == id.Name {
+			return mkBool("true"), nil
+		}
+		if p := c.fn.Parent(); p != nil && p.Pkg != nil && p.Pkg.Pkg.Name() == id.Name {
+			return mkBool("true"), nil
+		}
+		return mkBool("false"), nil
 	case "param":
 		// param(x): the value the parameter x had on entry, even where an inner declaration shadows it
 		id, ok := ex.Args[0].(*ast.Ident)
